@@ -1128,6 +1128,8 @@ func checkAttrLadders(c *Ctx, rule string, sftpOnly bool) {
 				body = b.Succs[0]
 			case cmp.Op == token.EQL && y == 0:
 				body = b.Succs[1]
+			case cmp.Op == token.NEQ && y == k && k != 0:
+				body = b.Succs[1] // `flags&X != X { return }`: the section follows on the other side
 			default:
 				continue
 			}
@@ -1610,7 +1612,15 @@ func checkAttrBlockFollowsItsFlags(c *Ctx, rule string) {
 		sort.Slice(calls, func(i, j int) bool { return calls[i].Pos() < calls[j].Pos() })
 		for ord, call := range calls {
 			n++
-			k := key(call.Call.Args[1])
+			// the flags word among the arguments: the uint32 (second by convention; elsewhere once the function has
+			// become a method of the attributes)
+			var fl ssa.Value = call.Call.Args[1]
+			for _, a := range call.Call.Args {
+				if isBasicKind(types.Uint32)(a.Type()) {
+					fl = a
+				}
+			}
+			k := key(fl)
 			c.check(words[k], rule, fmt.Sprintf("%s: attribute block #%d laid out by the flags word it follows", fnName(o), ord+1), p.Pos(call.Pos()),
 				"marshalFileStat gets the flags this function wrote as the word", "the attribute block is laid out by "+k+", which is not a flags word this function writes: the word announces one set of fields and the block carries another")
 		}
@@ -1631,20 +1641,60 @@ func checkFilexferRequestDispatch(c *Ctx, rule string) {
 			fn = f
 		}
 	}
-	if fn == nil || len(fn.Params) != 1 {
-		c.missing(rule, "sshfx newPacketFromType")
-		return
-	}
-	c.looked(fnName(fn))
-	pt := fn.Params[0].Type()
 	var codes []int64
 	for k := int64(3); k <= 20; k++ {
 		codes = append(codes, k)
 	}
 	codes = append(codes, 200)
+	// the constructor table folded into the request decoder: RequestPacket.UnmarshalFrom is run with a buffer whose first
+	// byte is the type, up to the call of the chosen packet's UnmarshalPacketBody
+	var viaDecoder *ssa.Function
+	if fn == nil || len(fn.Params) != 1 {
+		for _, f := range p.ModuleFuncs() {
+			if f.Pkg == p.Sshfx && f.Name() == "UnmarshalFrom" && f.Signature.Recv() != nil && typeName(f.Signature.Recv().Type()) == "RequestPacket" {
+				viaDecoder = f
+			}
+		}
+		if viaDecoder == nil || len(viaDecoder.Params) != 2 {
+			c.missing(rule, "sshfx newPacketFromType")
+			return
+		}
+		fn = viaDecoder
+	}
+	c.looked(fnName(fn))
+	pt := fn.Params[len(fn.Params)-1].Type()
 	for _, k := range codes {
 		key := fmt.Sprintf("filexfer decodes request type %d", k)
-		st := newEvaluator(p).run(fn, []evVal{evInt(k, pt)}, 0)
+		var st evStop
+		if viaDecoder == nil {
+			st = newEvaluator(p).run(fn, []evVal{evInt(k, pt)}, 0)
+		} else {
+			ev := newEvaluator(p)
+			k := k
+			ev.opaque = func(callee *ssa.Function, args []evVal) (evVal, bool) {
+				if callee.Pkg == p.Sshfx && callee.Signature.Recv() != nil && typeName(callee.Signature.Recv().Type()) == "Buffer" {
+					if callee.Name() == "ConsumeUint8" {
+						return evInt(k, types.Typ[types.Uint8]), true
+					}
+					return evVal{}, true
+				}
+				return evVal{}, false
+			}
+			ev.intercept = func(call *ssa.CallCommon, args []evVal) bool {
+				return call.IsInvoke() && call.Method.Name() == "UnmarshalPacketBody"
+			}
+			bufObj := &evObj{typ: derefType(fn.Params[1].Type()), fields: map[string]evVal{"Err": {k: evNil}}}
+			reqObj := &evObj{typ: derefType(fn.Params[0].Type()), fields: map[string]evVal{}}
+			res := ev.run(fn, []evVal{{k: evObject, obj: reqObj}, {k: evObject, obj: bufObj}}, 0)
+			switch {
+			case res.kind == "intercept" && len(res.vals) > 0:
+				st = evStop{kind: "return", vals: []evVal{res.vals[0], {k: evNil}}}
+			case res.kind == "return":
+				st = evStop{kind: "return", vals: []evVal{{k: evNil}, {}}}
+			default:
+				st = res
+			}
+		}
 		if st.kind != "return" || len(st.vals) != 2 {
 			c.und(rule, key, p.Pos(fn.Pos()), "newPacketFromType could not be evaluated: "+st.kind+" "+st.why)
 			continue
